@@ -10,6 +10,7 @@
 EXTENDS FrameOps
 C == INSTANCE CombineOps
 J == INSTANCE JoinOps
+GR == INSTANCE GroupOps
 
 View(st, h) == [cols |-> st.frames[h].cols,
                 cell |-> [c \in Range(st.frames[h].cols) |-> st.bufs[st.frames[h].buf[c]]]]
@@ -26,9 +27,18 @@ AddFresh(st, f, grp) ==
 
 RowOps   == {"filter", "filter_out", "slice", "slice_off", "head", "tail", "drop_na", "unique", "sort"}
 ColOps   == {"select", "unselect", "rename", "modify"}
+(* grouped modify: the receiver is grouped; the function returns a scalar (e.flen = 1, broadcast over the group) or a
+   vector of e.flen = 2 or 3 values: accepted only if every group has exactly that many rows, rejected otherwise *)
+GroupCol(st, e) ==
+  LET f == View(st, e.x)  by == st.frames[e.x].grp IN
+  [i \in 1..NRow(f) |->
+     IF e.flen = 1 THEN e.vals[1]
+     ELSE LET mem == GR!Members(f, by, i) IN e.vals[CHOOSE t \in DOMAIN mem : mem[t] = i]]
+GroupSizesAll(st, e, k) ==
+  LET f == View(st, e.x)  by == st.frames[e.x].grp IN \A i \in 1..NRow(f) : Len(GR!Members(f, by, i)) = k
 PairOps  == {"rbind", "cbind", "update"}
 JoinKs   == {"left", "inner", "semi", "anti"}
-Transforming == RowOps \cup ColOps \cup PairOps \cup JoinKs \cup {"full", "deepcopy"}
+Transforming == RowOps \cup ColOps \cup PairOps \cup JoinKs \cup {"full", "deepcopy", "gmodify"}
 InPlaceOps == {"setitem", "setcol", "delitem", "delattr", "pop", "colnames", "group_by"}
 
 ResultOf(st, e) ==            \* the abstract frame a transforming call must return (full join: see trace spec)
@@ -42,6 +52,7 @@ ResultOf(st, e) ==            \* the abstract frame a transforming call must ret
     [] e.op = "semi"        -> J!SemiJoin(f, View(st, e.o), <<"k">>)
     [] e.op = "anti"        -> J!AntiJoin(f, View(st, e.o), <<"k">>)
     [] e.op = "deepcopy"    -> f
+    [] e.op = "gmodify"     -> C!Modify(f, e.name, GroupCol(st, e))
 
 Bcast(col, n) == IF Len(col) = n THEN col ELSE [i \in 1..n |-> col[1]]
 FitsRows(st, h, col) == st.frames[h].cols = <<>> \/ Len(col) = NRowH(st, h) \/ Len(col) = 1
@@ -78,7 +89,8 @@ Step(st, e, shares) ==
        [st EXCEPT !.bufs[st.frames[e.x].buf[e.name]][e.i] = e.v]
   ELSE st
 
-MustFail(st, e) == e.op = "setitem" /\ ~FitsRows(st, e.x, e.col)
+MustFail(st, e) == \/ e.op = "setitem" /\ ~FitsRows(st, e.x, e.col)
+                   \/ e.op = "gmodify" /\ e.flen # 1 /\ ~GroupSizesAll(st, e, e.flen)
 
 HasCols(st, h, names) == names \subseteq Range(st.frames[h].cols)
 DistinctCol(st, h, c) == \A p, q \in 1..NRowH(st, h) : p # q => View(st, h).cell[c][p] # View(st, h).cell[c][q]
@@ -98,6 +110,8 @@ EventOK(st, e) ==
                              /\ \A p, q \in DOMAIN e.a.pairs : p # q => e.a.pairs[p][1] # e.a.pairs[q][1] /\ e.a.pairs[p][2] # e.a.pairs[q][2]
        [] e.op = "modify" -> st.frames[e.x].cols # <<>> /\ (Len(e.a.col) = NRowH(st, e.x) \/ Len(e.a.col) = 1)
                              /\ st.frames[e.x].grp = <<>>
+       [] e.op = "gmodify" -> /\ st.frames[e.x].grp # <<>> /\ HasCols(st, e.x, Range(st.frames[e.x].grp)) /\ NRowH(st, e.x) >= 1
+                              /\ e.flen \in {1, 2, 3}
        [] e.op = "rbind" -> TRUE
        [] e.op \in {"cbind", "update"} -> st.frames[e.x].cols # <<>> /\ st.frames[e.o].cols # <<>>
                                           /\ (NRowH(st, e.o) = NRowH(st, e.x) \/ NRowH(st, e.o) = 1)
